@@ -42,6 +42,18 @@ pub struct Http<Ev> {
     client: Client,
 }
 
+/// Hook used by the external verification harness (`--cfg crux_verif`): the public API offers
+/// no way to install client-level middleware, so the harness could not exercise that half of
+/// the middleware stack otherwise.
+#[cfg(crux_verif)]
+impl<Ev> Http<Ev> {
+    /// Push `middleware` onto the client's middleware stack (must be called before the client is used).
+    pub fn verif_with_client_middleware(mut self, middleware: impl middleware::Middleware) -> Self {
+        self.client = self.client.with(middleware);
+        self
+    }
+}
+
 impl<Ev> crux_core::Capability<Ev> for Http<Ev> {
     type Operation = protocol::HttpRequest;
 
